@@ -57,9 +57,13 @@ func SerialEncode(seq byte, subject string, points data.Points) ([]byte, error) 
 
 	ret.Write(pbSerialBytes)
 
-	crc := crc16.ChecksumCCITT(ret.Bytes())
+	// log packets carry no CRC (docs/ref/serial.md) and SerialDecode does not
+	// strip one from them
+	if string(bytes.Trim(sub, "\x00")) != "log" {
+		crc := crc16.ChecksumCCITT(ret.Bytes())
 
-	err = binary.Write(&ret, binary.LittleEndian, crc)
+		err = binary.Write(&ret, binary.LittleEndian, crc)
+	}
 
 	return ret.Bytes(), err
 }
